@@ -112,7 +112,7 @@ func (h *harness) runVersion(c *Case) {
 	defer cache.Close()
 	vs := version.NewStoreVersionSet(dir, cache, 2)
 	if err := vs.Recover(); err != nil {
-		vevid.Fatal("version set init: %v", err)
+		vevid.OpFailed("version set init: %v", err)
 	}
 	defer vs.Destroy()
 	fv := vs.CreateFamilyVersion("f", 1)
@@ -123,7 +123,7 @@ func (h *harness) runVersion(c *Case) {
 		fn := vs.NextFileNumber()
 		b, err := table.NewStoreBuilder(fn, filepath.Join(dir, "f", version.Table(fn)))
 		if err != nil {
-			vevid.Fatal("builder: %v", err)
+			vevid.OpFailed("builder: %v", err)
 		}
 		m := map[uint32][]byte{}
 		for j, k := range u {
@@ -144,7 +144,7 @@ func (h *harness) runVersion(c *Case) {
 		el := version.NewEditLog(1)
 		el.Add(version.CreateNewFile(int32(level), version.NewFileMeta(fn, b.MinKey(), b.MaxKey(), b.Size())))
 		if err := vs.CommitFamilyEditLog("f", el); err != nil {
-			vevid.Fatal("commit edit log: %v", err)
+			vevid.OpFailed("commit edit log: %v", err)
 		}
 		files = append(files, m)
 		levels += fmt.Sprint(level)
@@ -260,12 +260,12 @@ func (h *harness) runFlush(c *Case) {
 	defer os.RemoveAll(dir)
 	store, err := kv.GetStoreManager().CreateStore(dir, kv.DefaultStoreOption())
 	if err != nil {
-		vevid.Fatal("create store: %v", err)
+		vevid.OpFailed("create store: %v", err)
 	}
 	defer func() { _ = kv.GetStoreManager().CloseStore(dir) }()
 	family, err := store.CreateFamily("f", kv.FamilyOption{Merger: mergerName})
 	if err != nil {
-		vevid.Fatal("create family: %v", err)
+		vevid.OpFailed("create family: %v", err)
 	}
 	var files []map[uint32][]byte // files that must exist
 	var allEmpty []bool           // parallel: every value of that flush is empty (hazard H5)
